@@ -2,8 +2,11 @@
 mod coord;
 mod env;
 mod exec;
+mod exec_crash;
 mod exec_more;
 mod gen;
+mod http;
+mod sqlgen;
 mod model;
 mod plan;
 mod props;
